@@ -35,6 +35,7 @@ type sched struct {
 	cur     int
 	diverge string
 	trace   []string // thread:label sequence (for replay determinism checks)
+	running int      // the thread that currently runs (valid inside thread bodies)
 }
 
 // Point is called by thread id at a scheduling point; it blocks until the controller resumes the thread.
@@ -106,6 +107,7 @@ func schedRun(bodies []func(s *sched, id int), prefix []int) (*schedResult, erro
 		res.points = append(res.points, schedPoint{running: running, enabled: enabled, chosen: c, runningOn: runningOn, label: label})
 		res.choices = append(res.choices, c)
 		running = enabled[c]
+		s.running = running
 		s.resume[running] <- struct{}{}
 		ev := <-s.events
 		if ev.thread != running {
